@@ -64,8 +64,37 @@ def gen_case(rng, nops, variant):
             ops.append([12, rng.randrange(nstreams)])                                  # a finished HLS segment
         elif r < 0.995:
             ops.append([13, rng.randrange(nstreams)])                                  # playlist request
-        else:
+        elif r < 0.998:
             ops.append([14, rng.randrange(nstreams), rng.randint(0, 4)])               # segment request
+        else:
+            ops.append([15, 0])                                                        # the pending retire tasks fire
+    return [variant, ops]
+
+# the registry's own tasks: A with viewers is replaced by B (Regist posts the retire task for A); the scheduler fires the
+# pending tasks while A's viewers are attached, and again after they have left; B with or without viewers / HLS / age
+def retire_shape(rng, variant):
+    sp = SPELL[rng.choice("abcd")]
+    ops = [[0, rng.choice(sp), rng.random() < 0.4], [1, 0]]
+    kinds = [rng.random() < 0.4 for _ in range(rng.randint(1, 3))]
+    ops += [[7, 0, k] for k in kinds]
+    ops += [[0, rng.choice(sp), rng.random() < 0.4], [1, 1]]
+    if rng.random() < 0.4:
+        ops.append([7, 1, rng.random() < 0.4])
+    def fire():
+        if rng.random() < 0.6:
+            ops.append([11, rng.choice([0, 4, 5, 6])])
+        ops.append([15, 0])
+        ops.append([4, rng.choice(sp)])
+    fire()
+    if rng.random() < 0.85:
+        for k in kinds:
+            ops.append([8, 0, k])
+    if rng.random() < 0.3:
+        ops += [[0, rng.choice(sp), rng.random() < 0.4], [1, 2]]       # a third publisher
+    fire()
+    ops.append([5, 0])
+    if rng.random() < 0.3:
+        ops.append([11, 5]); ops.append([15, 0]); ops.append([4, rng.choice(sp)])
     return [variant, ops]
 
 # HLS viewers only: a stream (usually with a playlist) is polled in every playlist state (0..4+ segments), segments
@@ -155,7 +184,9 @@ def run(ck):
         r = rng.random()
         if r < 0.6:
             return gen_case(rng, rng.randint(4, 40 if ck.thorough else 14), FIXED)
-        return shaped() if r < 0.8 else hls_shape(rng, FIXED)
+        if r < 0.73:
+            return shaped()
+        return hls_shape(rng, FIXED) if r < 0.87 else retire_shape(rng, FIXED)
     raw = [one() for _ in range(3 * n)]
     import vlib
     wf = vlib.run_driver("C05", "C05_wf", [vlib.vs(c) for c in raw])
@@ -164,8 +195,9 @@ def run(ck):
     ck.stream("histories", cases, "C05_run", "C05", "C05_ok",
               nontrivial=lambda c: sum(1 for o in c[1] if o[0] == 1) >= 2 and any(o[0] == 4 for o in c[1]),
               sig=lambda c, e, o: "registry-history")
-    return ck.finish(rule="60% random, 20% HLS-shaped (a stream with a playlist polled in every playlist state, segment fetches, clock "
-                          "ticks, the idle decision with a period around the time since the last access, then lookup / count), 20% replacement-shaped (publisher replaced under another spelling, old publisher leaves late, "
+    return ck.finish(rule="60% random, 13% retire-task-shaped (a stream with viewers is replaced, the scheduler's pending idle-close jobs are run — "
+                          "scheduler.Jobs() / Job().Run() — before and after the viewers leave), 14% HLS-shaped (a stream with a playlist polled in every playlist state, segment fetches, clock "
+                          "ticks, the idle decision with a period around the time since the last access, then lookup / count), 13% replacement-shaped (publisher replaced under another spelling, old publisher leaves late, "
                           "registry-borne end, then lookup / count / list) histories of new/regist/unregist/close/get/count/list/attach/detach/idle-decision(period)/unregist-all/clock-tick/hls-segment/playlist-request/segment-request over three paths in "
                           "several spellings on the real media package (only live streams are registered: hist_wf); "
                           "non-trivial = at least two registrations and one lookup; the observation ends with the per-stream vector "
